@@ -1,6 +1,7 @@
 import Desert.Lemmas.RoundTripFull
 import Desert.Lemmas.AltFormLemmas
 import Desert.Lemmas.EnumLemmas
+import Desert.Lemmas.Leaves
 /-!
 # C04 — the bytes are those the desert binary format prescribes
 
@@ -137,5 +138,28 @@ example : encodeTop [] (.seq (.prim (.int 2 false))) (.list (.vcons (.int 1) (.v
 example : encodeTop [] (.tuple (.fcons (.prim (.int 1 false)) .fnil)) (.list (.vcons (.int 5) .vnil)) = .ok [0x00, 0x05] := by decide
 example : encodeTop [] (.prim .duration) (.dur 1 5) = .ok [0, 0, 0, 0, 0, 0, 0, 1, 0, 0, 0, 5] := by decide
 example : encSeqUnknown [] (.prim (.int 1 false)) (.vcons (.int 7) .vnil) [] = .ok ([0x01, 0x01, 0x07, 0x00], []) := by decide
+
+
+/-! ### the chrono / big-number leaves (DESIGN 12.8): layouts of their wire descriptions -/
+
+/-- `NaiveDate`: `uv(year as u32)`, month byte, day byte (after the description's version byte) -/
+theorem leaf_naiveDate_layout (y m d : Nat) (hy : y < 2 ^ 32) (hm : m < 256) (hd : d < 256) :
+    enc [] naiveDateD (.list (.vcons (.int y) (.vcons (.int m) (.vcons (.int d) .vnil)))) [] =
+      .ok (0 :: (uv y ++ ([byteOf m] ++ ([byteOf d] ++ []))), []) :=
+  naiveDate_layout y m d hy hm hd
+
+/-- `NaiveTime`: hour, minute, second bytes, `uv(nanosecond)` -/
+theorem leaf_naiveTime_layout (h m s n : Nat) (hh : h < 256) (hm : m < 256) (hs : s < 256) (hn : n < 2 ^ 32) :
+    enc [] naiveTimeD (.list (.vcons (.int h) (.vcons (.int m) (.vcons (.int s) (.vcons (.int n) .vnil))))) [] =
+      .ok (0 :: ([byteOf h] ++ ([byteOf m] ++ ([byteOf s] ++ (uv n ++ [])))), []) :=
+  naiveTime_layout h m s n hh hm hs hn
+
+-- pinned encodings of the other descriptions (tests by evaluation): 2024-02-29; zone "UTC"; (-1 s, 5 ns)
+example : enc [] naiveDateD (.list (.vcons (.int 2024) (.vcons (.int 2) (.vcons (.int 29) .vnil)))) [] =
+    .ok ([0, 0xe8, 0x0f, 2, 29], []) := by decide
+example : enc [] tzD (.list (.vcons (.int 1) (.vcons (.str [0x55, 0x54, 0x43]) .vnil))) [] =
+    .ok ([0, 1, 6, 0x55, 0x54, 0x43], []) := by decide
+example : enc [] dateTimeUtcD (.list (.vcons (.int (-1)) (.vcons (.int 5) .vnil))) [] =
+    .ok ([0, 0xff, 0xff, 0xff, 0xff, 0xff, 0xff, 0xff, 0xff, 0, 0, 0, 5], []) := by decide
 
 end C04
